@@ -45,7 +45,7 @@ func (m *xpeerModel) Enabled() []string {
 		if m.cfg.Extra == "unauthenticated-answers" {
 			// one configuration: the answer comes from the right address with the right transaction id, but without
 			// MESSAGE-INTEGRITY or signed with another key (the request stays outstanding; nothing may be validated by it)
-			evs = append(evs, fmt.Sprintf("answer:%d:nomi", d.seq), fmt.Sprintf("answer:%d:badkey", d.seq))
+			evs = append(evs, fmt.Sprintf("answer:%d:nomi", d.seq), fmt.Sprintf("answer:%d:badkey", d.seq), fmt.Sprintf("answer:%d:error", d.seq))
 		}
 		if len(m.remotes) > 1 {
 			evs = append(evs, fmt.Sprintf("answer:%d:othersrc", d.seq))
@@ -132,7 +132,11 @@ func (m *xpeerModel) Apply(ev string) {
 		case "badkey":
 			key = "not the remote password at all!!"
 		}
-		m.send(to, from, m.peerResponse(d.data, stun.ClassSuccessResponse, key, d.src))
+		class := stun.ClassSuccessResponse
+		if f[2] == "error" { // correctly signed, right transaction, right source - but an error response (487)
+			class = stun.ClassErrorResponse
+		}
+		m.send(to, from, m.peerResponse(d.data, class, key, d.src))
 	case "signal":
 		j, _ := strconv.Atoi(f[1])
 		if m.signaled == nil {
@@ -207,8 +211,8 @@ func checkC03(c *runCtx) {
 		{"X full controlled vs scripted peer that also uses nomination values", "xpeer", soloCfg{Role: "controlled", Locals: 1, Remotes: 2, PrioL: prL, PrioR: prR, Depth: depth, Extra: "nomination-values"}},
 		{"X full controlled, the peer's address is learnt from its checks first and signalled later", "xpeer", soloCfg{Role: "controlled", Locals: 2, Remotes: 1, PrioL: prL, PrioR: prR, Depth: depth, NoSignal: true}},
 		{"X full controlling, the peer's address is learnt from its checks first and signalled later", "xpeer", soloCfg{Role: "controlling", Locals: 2, Remotes: 1, PrioL: prL, PrioR: prR, Depth: depth, NoSignal: true}},
-		{"X full controlling, the peer may also answer without MESSAGE-INTEGRITY or with another key", "xpeer", soloCfg{Role: "controlling", Locals: 1, Remotes: 2, PrioL: prL, PrioR: prR, Depth: depth, Extra: "unauthenticated-answers"}},
-		{"X full controlled, the peer may also answer without MESSAGE-INTEGRITY or with another key", "xpeer", soloCfg{Role: "controlled", Locals: 1, Remotes: 2, PrioL: prL, PrioR: prR, Depth: depth, Extra: "unauthenticated-answers"}},
+		{"X full controlling, the peer may also answer without MESSAGE-INTEGRITY, with another key, or with a signed error response", "xpeer", soloCfg{Role: "controlling", Locals: 1, Remotes: 2, PrioL: prL, PrioR: prR, Depth: depth, Extra: "unauthenticated-answers"}},
+		{"X full controlled, the peer may also answer without MESSAGE-INTEGRITY, with another key, or with a signed error response", "xpeer", soloCfg{Role: "controlled", Locals: 1, Remotes: 2, PrioL: prL, PrioR: prR, Depth: depth, Extra: "unauthenticated-answers"}},
 		{"X lite controlled vs scripted peer", "xpeer", soloCfg{Role: "controlled", Lite: true, Locals: 2, Remotes: 2, PrioL: prL, PrioR: prR, Depth: depth}},
 		{"X lite controlled + use-candidate priority check vs scripted peer", "xpeer", soloCfg{Role: "controlled", Lite: true, UCPrio: true, Locals: 2, Remotes: 2, PrioL: prL, PrioR: prR, Depth: depth}},
 		{"X lite controlling vs scripted peer", "xpeer", soloCfg{Role: "controlling", Lite: true, Locals: 2, Remotes: 2, PrioL: prL, PrioR: prR, Depth: depth - 1}},
